@@ -1,7 +1,8 @@
 #!/venv/bin/python
 """Regression over the mutation corpora: every breaking seed must make at least one check fire (exit 1 class),
-every neutral refactoring must leave all 17 checks silent.  Usage: tools/regress.py [seeds|neutral|all] [dirs...]"""
-import glob, os, shutil, subprocess, sys, tempfile
+every neutral refactoring must leave all 17 checks silent.  Usage: tools/regress.py [seeds|neutral|all] [filters...] [--update-meta]
+(--update-meta rewrites caught_by in seeded/*/meta.json from what fired)"""
+import glob, json, os, shutil, subprocess, sys, tempfile
 from concurrent.futures import ProcessPoolExecutor
 
 sys.path.insert(0, os.path.dirname(os.path.abspath(__file__)))
@@ -11,19 +12,21 @@ import try_many as tm
 def collect(kind):
     out = []
     if kind in ("seeds", "all"):
-        for d in sorted(glob.glob("/tmp/seed_C*/[ab]")) + sorted(glob.glob("/verif/seeded/*")):
+        for d in sorted(glob.glob("/verif/seeded/*")):
             p = os.path.join(d, "patch_rebased.diff")
             if not os.path.exists(p):
                 p = os.path.join(d, "patch.diff")
             if os.path.exists(p):
                 out.append(("seed", p))
     if kind in ("neutral", "all"):
-        for p in sorted(glob.glob("/tmp/neutral_C*/[abcd]/patch.diff")) + sorted(glob.glob("/verif/selftest/neutral/*.diff")):
+        for p in sorted(glob.glob("/verif/selftest/neutral/*.diff")):
             out.append(("neutral", p))
     return out
 
 
 if __name__ == "__main__":
+    update = "--update-meta" in sys.argv
+    sys.argv = [a for a in sys.argv if a != "--update-meta"]
     kind = sys.argv[1] if len(sys.argv) > 1 else "all"
     items = collect(kind)
     if len(sys.argv) > 2:
@@ -47,6 +50,12 @@ if __name__ == "__main__":
                 viol = {pid: ls for pid, ls in res.items() if any(l.startswith("VIOLATION") for l in ls)}
                 err = {pid: ls for pid, ls in res.items() if any(not l.startswith("VIOLATION") for l in ls)}
                 if k == "seed":
+                    if update:
+                        mp = os.path.join(os.path.dirname(patch), "meta.json")
+                        meta = json.load(open(mp))
+                        if meta.get("caught_by") != sorted(viol):
+                            meta["caught_by"] = sorted(viol)
+                            json.dump(meta, open(mp, "w"), indent=1)
                     if viol:
                         print(f"ok    seed    {patch}  caught by {sorted(viol)}" + (f"  (errors in {sorted(err)})" if err else ""))
                     else:
